@@ -39,6 +39,8 @@ pub enum Instr {
     SetEdgeAtt { e: u8, val: ValSpec },
     /// system slots only
     OpenPortal { slot_on_edge: bool, owner: u8, child: u8, child_root: u8, ty: u8 },
+    /// portal to an instance that is required to exist already (dishonest user rules only)
+    OpenPortalExisting { slot_on_edge: bool, owner: u8, child: u8, child_root: u8 },
     /// raw op in another warp (dishonest programs only)
     ForeignUpsertNode { w: u8, n: u8, ty: u8 },
     Panic,
@@ -280,6 +282,12 @@ pub fn interpret_model(pre: &AState, w: u8, prog: &Prog) -> Option<Vec<AOp>> {
                 child_root: *child_root,
                 init_ty: Some(*ty),
             }),
+            Instr::OpenPortalExisting { slot_on_edge, owner, child, child_root } => ops.push(AOp::OpenPortal {
+                slot: if *slot_on_edge { ASlot::Edge(w, *owner) } else { ASlot::Node(w, *owner) },
+                child: *child,
+                child_root: *child_root,
+                init_ty: None,
+            }),
             Instr::ForeignUpsertNode { w: fw, n, ty } => ops.push(AOp::UpsertNode { w: *fw, n: *n, ty: *ty }),
             Instr::Panic => return None,
             Instr::SwapDelta => {}
@@ -356,7 +364,7 @@ pub fn honest_footprint(w: u8, instrs: &[Instr]) -> AFootprint {
             Instr::SetEdgeAtt { e, .. } => {
                 fp.a_write.insert(ASlot::Edge(w, *e));
             }
-            Instr::OpenPortal { slot_on_edge, owner, .. } => {
+            Instr::OpenPortal { slot_on_edge, owner, .. } | Instr::OpenPortalExisting { slot_on_edge, owner, .. } => {
                 fp.a_write.insert(if *slot_on_edge { ASlot::Edge(w, *owner) } else { ASlot::Node(w, *owner) });
             }
             Instr::ForeignUpsertNode { .. } | Instr::Panic | Instr::SwapDelta => {}
@@ -481,6 +489,9 @@ pub fn run_real(view: GraphView<'_>, w: u8, p: &Prog, delta: &mut TickDelta) {
                     init_ty: Some(*ty),
                 }
                 .to_real(),
+            ),
+            Instr::OpenPortalExisting { slot_on_edge, owner, child, child_root } => delta.push(
+                AOp::OpenPortal { slot: if *slot_on_edge { ASlot::Edge(w, *owner) } else { ASlot::Node(w, *owner) }, child: *child, child_root: *child_root, init_ty: None }.to_real(),
             ),
             Instr::ForeignUpsertNode { w: fw, n, ty } => delta.push(AOp::UpsertNode { w: *fw, n: *n, ty: *ty }.to_real()),
             Instr::Panic => std::panic::panic_any("dsl: program requested a panic"),
